@@ -295,6 +295,7 @@ def main():
     ap.add_argument("--jobs", type=int, default=int(os.environ.get("VERIF_JOBS", "14")))
     ap.add_argument("--keep", action="store_true")
     ap.add_argument("--no-evidence", action="store_true")
+    ap.add_argument("--measure-thorough", action="store_true", help="development aid: run only the tier=thorough harnesses whose home is this property (each thorough-only harness once over all properties); evidence goes to $VERIF_EVIDENCE_DIR (default /var/tmp/evidence_thorough)")
     ap.add_argument("--list", action="store_true", help="list the selected harnesses with tier / est / mem and exit (development aid)")
     a = ap.parse_args()
     prop = a.prop.upper()
@@ -369,9 +370,12 @@ def main():
                 # home: the first property of its prop= list whose plan contains this shadow variant (the adopting property
                 # if none does), plus every property listed in its quick= key.  So each (variant, harness) pair is run by
                 # exactly one quick check unless it says otherwise, and by the thorough check of every property it names.
-                if a.tier != "quick":
+                if a.tier != "quick" and not a.measure_thorough:
                     return True
-                if h["tier"] != "quick":
+                if a.measure_thorough:
+                    if h["tier"] != "thorough":
+                        return False
+                elif h["tier"] != "quick":
                     return False
                 # quick_variants=: in the quick tier on the listed shadow variants only (thorough on the others)
                 if h.get("quick_variants") and vname not in h["quick_variants"].split(","):
@@ -468,8 +472,11 @@ def main():
             "wall_s": round(wall, 1),
             "violations": len(violations),
         }
-        os.makedirs(os.path.join(VERIF, "evidence"), exist_ok=True)
-        json.dump(ev, open(os.path.join(VERIF, "evidence", f"{prop}.json"), "w"), indent=1)
+        evdir = os.path.join(VERIF, "evidence")
+        if a.measure_thorough:
+            evdir = os.environ.get("VERIF_EVIDENCE_DIR", "/var/tmp/evidence_thorough")
+        os.makedirs(evdir, exist_ok=True)
+        json.dump(ev, open(os.path.join(evdir, f"{prop}.json"), "w"), indent=1)
     cleanup()
     print(f"SUMMARY property={prop} tier={a.tier} harnesses={len(records)} pass={len(passed)} known={len(known_hits)} violations={len(violations)} inconclusive={len(inconclusive) + len(engine_errors)} wall={wall:.0f}s")
     if violations:
